@@ -632,29 +632,32 @@ class Compiler:
     else:
       rty = 'bool'
     res = self.local(self.fresh('bo'), rty)
+    resb = self.local(self.fresh('bob'), 'bool')      # truth value of the result, always maintained
     line = e.lineno
+    mode = {'rty': rty}
 
     def store(v):
-      if rty == 'exc':
+      self.P.emit('set', line, dst=('l', resb), e=self.truth(v, e))
+      if mode['rty'] == 'exc':
         if v.ty == 'none':
           v = Val('exc', kind=C(K_NONE), val=C(0))
         if v.ty != 'exc':
-          self.err(e, f'`or` of exception and {v.ty}')
+          mode['rty'] = 'bool'          # mixed operands: only the truth value is meaningful (condition context)
+          return
         self.P.emit('set', line, dst=('l', res), e=v.c['kind'])
         self.P.emit('set', line, dst=('l', res + '.val'), e=v.c['val'])
-      elif rty == 'int':
+      elif mode['rty'] == 'int':
         if v.ty not in ('int', 'bool'):
-          self.err(e, f'`or` of int and {v.ty}')
+          mode['rty'] = 'bool'
+          return
         self.P.emit('set', line, dst=('l', res), e=v.c['e'])
-      else:
-        self.P.emit('set', line, dst=('l', res), e=self.truth(v, e))
 
     v = first
     for idx, nxt in enumerate(e.values[1:] + [None]):
       store(v)
       if nxt is None:
         break
-      c = ('op', '!=', ('l', res), C(0))
+      c = ('l', resb)
       lnext = self.P.label('boolop_next')
       if is_or:
         self.P.emit('br', line, e=c, t=lend, f=lnext)
@@ -663,9 +666,11 @@ class Compiler:
       self.P.place(lnext)
       v = self.expr(nxt)
     self.P.place(lend)
-    if rty == 'exc':
+    if mode['rty'] == 'exc':
       return Val('exc', kind=('l', res), val=('l', res + '.val'))
-    return Val(rty, e=('l', res))
+    if mode['rty'] == 'int':
+      return Val('int', e=('l', res))
+    return Val('bool', e=('l', resb))
 
   def e_UnaryOp(self, e):
     v = self.expr(e.operand)
